@@ -97,9 +97,14 @@ T_EventFail ==
 
 \* DOCUMENT-START (trim_to_offset) and DOCUMENT-END (take_to_offset): the logged capture window is
 \* the model's, and the cut lies inside it
+\* CutAligned: a document's chunk starts at the beginning of a line of the text - or right where the
+\* previous document ended (an implicit document on the line of a '...'), the furthest back it can go.
+\* A chunk that starts at an indented first token shifts that line against the rest of the document
+\* when the chunk is parsed again (the defect repaired in xt d6866f3).
 T_Cut ==
   /\ (Ev("chunk_doc_start") \/ Ev("chunk_doc_end"))
   /\ Rec[l].b = capStart /\ Rec[l].c = capLen
+  /\ Rec[l].ev = "chunk_doc_start" => (Rec[l].bol \/ Rec[l].a = capStart)
   /\ Arm(Rec[l].a)
   /\ UNCHANGED outcome
 
